@@ -98,6 +98,13 @@ def run(ctx):
     for q in scope:
         check_casts(ctx, P.B(q), 'C20.2-no-truncation', include_float=False)
     ctx.info_note('C20.2-no-truncation scanned %d functions reachable from %d from_term conversions' % (len(scope), len(roots)))
+    # a term of the wrong shape is rejected, which means: None / Err, not a panic on the first missing element
+    ctx.rule('C20.2-shape-before-access', 'in every from_term conversion (and the helpers it calls) each positional access tuple[i] / list[i] / slice is dominated by a test that establishes the length it needs: '
+             'a term of the wrong shape is turned away, it does not panic the conversion', floor=1)
+    n_sites = 0
+    for q in scope:
+        n_sites += check_panics(ctx, P.B(q), 'C20.2-shape-before-access', kinds=('bounds', 'index', 'slice', 'map-index'), key_prefix='PANIC')
+    ctx.anchor(n_sites >= 1, 'positional accesses in from_term conversions')
     for name, path in WRAPPERS.items():
         ty = CR + path
         if P.B(ty + '::try_new') is None:
@@ -118,9 +125,48 @@ def run(ctx):
     # ---------------- clause 3: range arithmetic ------------------------------------------------------------------------
     ctx.rule('C20.3-range-arith', 'length, membership test and iteration of a range never overflow: no unchecked Sub / Neg / abs / Add on the 64-bit bounds', floor=8)
     for p in sorted(ctx.F.bodies):
-        if p.startswith(CR + 'range::') and ctx.F.bodies[p]['kind'] in ('Fn', 'AssocFn', 'Closure'):
+        if (CR + 'range::') in p and ctx.F.bodies[p]['kind'] in ('Fn', 'AssocFn', 'Closure'):
             check_panics(ctx, P.B(p), 'C20.3-range-arith', kinds=('overflow', 'div0', 'partial'), key_prefix='OVERFLOW')
             check_casts(ctx, P.B(p), 'C20.3-range-arith', include_float=False)
+
+    # wrapping arithmetic does not panic, it silently yields a value on the other side of the number line: on the bounds of a
+    # range that is an overflow all the same (an iterator that walks past i64::MIN and comes back from i64::MAX)
+    ctx.rule('C20.3-no-silent-wrap', 'no wrapping_add / wrapping_sub / wrapping_mul / wrapping_neg on the 64-bit bounds, cursor or step of a range unless the interval analysis shows the exact result fits the type', floor=0)
+    from ..ranges import Ranges as _R, ty_range as _tyr
+    for p in sorted(ctx.F.bodies):
+        if not ((CR + 'range::') in p and ctx.F.bodies[p]['kind'] in ('Fn', 'AssocFn', 'Closure')):
+            continue
+        WB = P.B(p)
+        R_ = None
+        k_ = 0
+        for bb, t in WB.calls():
+            nm = callee_of(t)[0] or ''
+            short = nm.rsplit('::', 1)[-1]
+            if not (nm.startswith('core::num::') and short in ('wrapping_add', 'wrapping_sub', 'wrapping_mul', 'wrapping_neg')):
+                continue
+            R_ = R_ or _R(WB)
+            k_ += 1
+            ty = (t.get('aty') or ['i64'])[0]
+            tr = _tyr(ty) or (-2 ** 63, 2 ** 63 - 1)
+            a = R_.range_of(t['args'][0], bb)
+            b = R_.range_of(t['args'][1], bb) if len(t['args']) > 1 else (0, 0)
+            if short == 'wrapping_add':
+                lo, hi = a[0] + b[0], a[1] + b[1]
+            elif short == 'wrapping_sub':
+                lo, hi = a[0] - b[1], a[1] - b[0]
+            elif short == 'wrapping_mul':
+                c_ = [a[0] * b[0], a[0] * b[1], a[1] * b[0], a[1] * b[1]]
+                lo, hi = min(c_), max(c_)
+            else:
+                lo, hi = -a[1], -a[0]
+            inst = '%s:%s#%d' % (p, short, k_)
+            if lo >= tr[0] and hi <= tr[1]:
+                ctx.ok('C20.3-no-silent-wrap', inst, 'exact result in [%s, %s] fits %s' % (lo, hi, ty), ctx.where(WB, bb))
+            elif any(R_.uninterpreted_mentions(bb, canon(WB, x)) for x in t['args']):
+                ctx.undecided('C20.3-no-silent-wrap', inst, 'a dominating condition mentions the operands but the result range [%s, %s] could not be shown to fit' % (lo, hi), ctx.where(WB, bb))
+            else:
+                ctx.bad('C20.3-no-silent-wrap', inst, '%s on range state may wrap around (exact result in [%s, %s], %s holds [%s, %s]): length, membership and iteration no longer describe the same set' % (short, lo, hi, ty, tr[0], tr[1]),
+                        ctx.where(WB, bb), key='OVERFLOW:%s:%s' % (p, short))
 
     # membership: the stride is counted from `first` (the element iteration starts from), whatever the direction
     ctx.rule('C20.3-membership-anchor', 'contains() tests the stride on the distance between the value and `first`: every remainder in it divides (value - first) or (first - value); '
